@@ -23,7 +23,7 @@ func init() {
 		ID:      "C16",
 		Level:   "exploration",
 		Workers: 16,
-		Rule: "request mutation over the real service: valid requests captured from correct clients in all states (due-to-create, due-to-subscribe, subscribed with and without pending operations) are mutated in one to three fields - unknown / foreign / empty / swapped DUID, unknown or empty key, wrong type, every combination of the seven option bits (read-only with and without operations, snapshot, delete, unsubscribe, error), checkpoints stale / future / huge / zero, operation lists with gaps, repeats, reordering, foreign client id, other era, emptied, 500 operations; unregistered / foreign-collection / administrative / empty client id, unknown / other / empty collection, no packs, duplicated packs - plus correct requests with a panic injected inside their handler's goroutine between lock acquisition and commit (hook pp.before-commit: the recovery path must answer, keep the process alive and release the key), plus ClientMessage, PatchMessage (invalid JSON, non-object JSON, key of another type, unknown collection) and CollectionMessage variants. Monitors: every call is answered (watchdog classification: a handler that ended without replying is a hang), a server panic is a violation, refused (RPC error or error-bit pack) => store diff empty (volatile timestamps ignored); after every hostile request a canary client syncs the same key and another key and must be answered. Client half: every error pack the server produced in the run and the five defined push-pull error codes are applied to a subscribed client: its error handler must be called, nothing may panic, and it must complete a normal sync of another datatype afterwards; every third case also runs the client half through the SDK's own sync path (Client.Sync() over real grpc): a lost response, a request refused at the RPC level and an error pack for one of two datatypes, in random order - after each the next Sync() must return (watchdog classification: waiting for the client's sync semaphore while no sync is under way is a hang) and succeed, the error pack must reach an error handler, and every issued operation ends up stored exactly once; " +
+		Rule: "request mutation over the real service: valid requests captured from correct clients in all states (due-to-create, due-to-subscribe, subscribed with and without pending operations) are mutated in one to three fields - unknown / foreign / empty / swapped DUID, unknown or empty key, wrong type, every combination of the seven option bits (read-only with and without operations, snapshot, delete, unsubscribe, error), checkpoints stale / future / huge / zero, operation lists with gaps, repeats, reordering, foreign client id, other era, emptied, 500 operations; unregistered / foreign-collection / administrative / empty client id, unknown / other / empty collection, no packs, duplicated packs - plus correct requests with a panic injected inside their handler's goroutine between lock acquisition and commit (hook pp.before-commit: the recovery path must answer, keep the process alive and release the key), plus ClientMessage, PatchMessage (invalid JSON, non-object JSON, key of another type, unknown collection) and CollectionMessage variants. Monitors: every call is answered (watchdog classification: a handler that ended without replying is a hang), a server panic is a violation, refused (RPC error or error-bit pack) => store diff empty (volatile timestamps ignored); after every hostile request a canary client syncs the same key and another key and must be answered; after an ACCEPTED hostile request the stored log must still satisfy the structural invariants of C06 (gapless up to the recorded end, nobody acknowledged beyond what is stored). Client half: every error pack the server produced in the run and the five defined push-pull error codes are applied to a subscribed client: its error handler must be called, nothing may panic, and it must complete a normal sync of another datatype afterwards; every third case also runs the client half through the SDK's own sync path (Client.Sync() over real grpc): a lost response, a request refused at the RPC level and an error pack for one of two datatypes, in random order - after each the next Sync() must return (watchdog classification: waiting for the client's sync semaphore while no sync is under way is a hang) and succeed, the error pack must reach an error handler, and every issued operation ends up stored exactly once; " +
 			"non-trivial = the request differs from any request a correct client could send (every mutated request); distinct = hash of the mutation script",
 		Assumptions: []string{
 			"only 'answered / not answered / crashed' and 'refused => unchanged' are verdicts; whatever a canary notices after an ACCEPTED hostile request (error pack, client-side panic) is recorded as a diagnostic",
@@ -48,13 +48,14 @@ func sigOf(what string) string {
 func randUID(r interface{ Intn(int) int }) string { return crdt.SeededCUID(r) }
 
 type c16world struct {
-	w        *svcWorld
-	canary   *bed.Client
-	cz0, cz9 *bed.DT
-	att      []*bed.Client
-	foreign  *bed.Client // client of colB
-	errPacks []*model.PushPullPack
-	nm       map[int32]string
+	foreignOpsStored bool // operations with a foreign origin were accepted earlier in this case
+	w                *svcWorld
+	canary           *bed.Client
+	cz0, cz9         *bed.DT
+	att              []*bed.Client
+	foreign          *bed.Client // client of colB
+	errPacks         []*model.PushPullPack
+	nm               map[int32]string
 }
 
 // mutate applies 1-3 mutations to a request; returns a description.
@@ -247,6 +248,23 @@ func (x *c16world) judge(what string, out bed.CallOutcome, refused bool, before 
 		c.Count("refused_with_empty_diff", 1)
 	} else {
 		c.Count("accepted_hostile_requests", 1)
+		// an ACCEPTED request may store what it carries, but whatever is stored afterwards is
+		// still a log: gapless sequence numbers up to the recorded end, and no client acknowledged
+		// beyond what is stored of it (C06's invariants, structural part). Requests whose
+		// operations carry ANOTHER client's id are stored under that id by the unchanged server
+		// (it does not check the origin of pushed operations); the per-client accounting cannot
+		// be applied to them and they are only counted.
+		if sig, msg := x.w.b.CheckLog(nil, ""); sig != "" {
+			if strings.Contains(what, "foreign-cuid") || strings.Contains(what, "cuid=") || strings.Contains(what, "ops=other-era") || x.foreignOpsStored {
+				// the request speaks under another identity (client id of the message or of its
+				// operations): what is stored is accounted to that identity, the per-client part
+				// of the invariants does not apply; counted only
+				x.foreignOpsStored = true
+				c.Count("diag_log_accounting_after_foreign_origin_push", 1)
+			} else {
+				return c.Violation("accepted-but-log-broken:"+sig, "%s was accepted (no error) and left a broken log: %s", what, msg)
+			}
+		}
 	}
 	return nil
 }
